@@ -106,6 +106,13 @@ static inline void iora_call_Cleanup(Impl *im, uint64_t data)
   G_cleanup_seq = ++G_seq; G_cleanup_data = data;
 }
 
+/* ---- the data callback as invoked by the setReadMode flush loop (clause AC1) ---- */
+static inline iora_time iora_now(void) { iora_time t = { 0 }; return t; }
+static inline iora_chunk iora_mk_chunk(iora_spos p, size_t n) { iora_chunk c = { p, n }; return c; }
+unsigned G_data_calls;
+static inline void iora_call_DataCallback(Impl *im, iora_fn f, SessionId sid, iora_chunk data, iora_time t)
+{ (void)t; (void)sid; (void)data; IORA_ASSERT(f.set, "CB1 an empty std::function is never invoked"); IORA_ASSERT(LOCKFREE(im), "CB2 user callback invoked with no Transport lock held"); if (G_data_calls < 1000) G_data_calls++; }
+
 /* R10: nextObserverId.fetch_add(1, relaxed): sequential semantics (atomicity / ordering not modelled) */
 static inline uint64_t iora_afetch_add_u64(uint64_t *x, uint64_t n) { uint64_t o = *x; IORA_ASSERT(o <= (uint64_t)-1 - n, "observer id counter does not wrap"); *x = o + n; return o; }
 
